@@ -123,9 +123,11 @@ func (evpool *Pool) Update(state sm.State, ev types.EvidenceList) {
 	// move committed evidence out from the pending pool and into the committed pool
 	evpool.markEvidenceAsCommitted(ev)
 
-	// prune pending evidence when it has expired. This also updates when the next evidence will expire
-	if evpool.Size() > 0 && state.LastBlockHeight > evpool.pruningHeight &&
-		state.LastBlockTime.After(evpool.pruningTime) {
+	// prune pending evidence when it has expired. This is checked on every update: pruningHeight and pruningTime
+	// describe the oldest evidence at the time of the last pruning only (and lag the expiry rule by one block and
+	// one second), so older evidence added since then, and evidence expiring right now, would otherwise stay
+	// pending, be proposed and be accepted in blocks by CheckEvidence although it has expired.
+	if evpool.Size() > 0 {
 		evpool.pruningHeight, evpool.pruningTime = evpool.removeExpiredPendingEvidence()
 	}
 }
